@@ -6,13 +6,16 @@ import (
 	"bufio"
 	"bytes"
 	"encoding/json"
+	"errors"
 	"fmt"
 	"io"
 	"os"
 	"os/exec"
+	"path/filepath"
 	"strings"
 	"sync"
 	"sync/atomic"
+	"syscall"
 	"time"
 
 	"wire"
@@ -68,7 +71,7 @@ func (r *ringBuf) String() string {
 // NewPool creates a pool of n workers running bin. asLimit (bytes, 0 = none)
 // becomes the workers' RLIMIT_AS. extraEnv entries are KEY=VALUE.
 func NewPool(bin string, n int, asLimit uint64, extraEnv ...string) *Pool {
-	p := &Pool{bin: bin, n: n, idle: make(chan *worker, n), Watchdog: 300 * time.Second}
+	p := &Pool{bin: bin, n: n, idle: make(chan *worker, n), Watchdog: watchdogFromEnv()}
 	p.env = []string{"PATH=/usr/bin:/bin", "HOME=/nonexistent", "LANG=C", "GOTRACEBACK=single"}
 	if asLimit > 0 {
 		p.env = append(p.env, fmt.Sprintf("VERIF_WORKER_AS=%d", asLimit))
@@ -116,6 +119,12 @@ func (w *worker) kill() {
 type InfraError struct{ Msg string }
 
 func (e *InfraError) Error() string { return "infrastructure: " + e.Msg }
+
+// IsWatchdog reports whether err is the wall-clock watchdog of Exec.
+func IsWatchdog(err error) bool {
+	var ie *InfraError
+	return errors.As(err, &ie) && strings.HasPrefix(ie.Msg, "worker watchdog")
+}
 
 // Exec runs one request. A worker that dies while executing it yields a
 // Result with Crash=true (the run that was in flight is known from the BEGIN
@@ -191,6 +200,15 @@ func (p *Pool) Exec(req *wire.Request) (*wire.Result, error) {
 	select {
 	case a = <-ch:
 	case <-time.After(p.Watchdog):
+		// keep the request for a post-mortem (the goroutine dump of the
+		// worker goes to its stderr on SIGQUIT)
+		_ = w.cmd.Process.Signal(syscall.SIGQUIT)
+		time.Sleep(300 * time.Millisecond)
+		if dir := os.Getenv("VERIF_DIR"); dir != "" {
+			_ = os.MkdirAll(filepath.Join(dir, "out", "infra"), 0o755)
+			_ = os.WriteFile(filepath.Join(dir, "out", "infra", fmt.Sprintf("watchdog-run%d.json", req.Run)), js, 0o644)
+			_ = os.WriteFile(filepath.Join(dir, "out", "infra", fmt.Sprintf("watchdog-run%d.stderr", req.Run)), []byte(w.stderr.String()), 0o644)
+		}
 		w.kill()
 		p.idle <- nil
 		return nil, &InfraError{fmt.Sprintf("worker watchdog (%v) on run %d; stderr: %s", p.Watchdog, req.Run, w.stderr.String())}
@@ -239,3 +257,12 @@ func CrashKind(stderr string) string {
 }
 
 var _ = os.Getpid
+
+func watchdogFromEnv() time.Duration {
+	if v := os.Getenv("VERIF_WORKER_WATCHDOG_S"); v != "" {
+		if d, err := time.ParseDuration(v + "s"); err == nil && d > 0 {
+			return d
+		}
+	}
+	return 300 * time.Second
+}
